@@ -159,10 +159,10 @@ class Generator:
 
     def length(self, rng, mode, lo, hi, optional=True):
         lo = max(0, lo or 0)
-        hi = 3 if hi is None else min(hi, max(3, lo))
+        hi = 4 if hi is None else min(hi, max(4, lo))
         hi = max(hi, lo)
         if mode == 'full':
-            return max(lo, min(hi, rng.choice([1, 2, 3])))
+            return max(lo, min(hi, rng.choice([1, 2, 3, 4])))
         return rng.randint(lo, hi)
 
     def field(self, cls, attr, rng, mode, depth, stack):
@@ -193,7 +193,7 @@ class Generator:
             n = self.length(rng, mode, 0, None)
             out = OrderedDict()
             for _ in range(n):
-                out[self.string(rng)[:40] + str(len(out))] = self.string(rng)
+                out[self.string(rng)[:40] + str(9 - len(out))] = self.string(rng)      # names never in code-point order of insertion
             return out
         if isinstance(d, D.StringListDescriptor):
             return [self.string(rng) for _ in range(self.length(rng, mode, d.minimum_length, d.maximum_length))]
@@ -203,7 +203,9 @@ class Generator:
             return [rand_float(rng) for _ in range(self.length(rng, mode, d.minimum_length, d.maximum_length))]
         if isinstance(d, D.FloatArrayDescriptor):
             n = self.length(rng, mode, d.minimum_length, d.maximum_length)
-            return numpy.array([rand_float(rng) for _ in range(n)], dtype='float64')
+            if rng.random() < 0.3 and d.minimum_length <= 4 <= d.maximum_length:
+                n = rng.randint(max(d.minimum_length, 0), 4)
+            return numpy.array([rand_float(rng, None, special=False) if rng.random() < 0.8 else rand_float(rng) for _ in range(n)], dtype='float64')
         if hasattr(d, 'child_type') and hasattr(d, 'child_tag'):      # SerializableArrayDescriptor, SerializableCPArrayDescriptor
             lo, hi = getattr(d, 'minimum_length', 0), getattr(d, 'maximum_length', None)
             n = self.length(rng, mode, lo, hi)
@@ -223,10 +225,21 @@ class Generator:
             two = 'order2' in cls._fields or cls.__name__ in ('Poly2DType',)
             if cls.__name__ in ('BankCustomType', 'KernelCustomType', '_CustomType'):
                 two = True
-            n1, n2 = rng.randint(1, 3), rng.randint(1, 3)
+            # orders 0..5 in either variable; patterns: all zero, all non-zero, sparse mixes; -0.0, denormals, huge values from the pool
+            n1, n2 = rng.randint(1, 6), rng.randint(1, 6)
+            pat = rng.choice(['zero', 'dense', 'sparse', 'sparse', 'pool'])
+
+            def coef():
+                if pat == 'zero':
+                    return rng.choice([0.0, 0.0, 0.0, -0.0])
+                if pat == 'dense':
+                    return rng.choice([1.0, -2.5, 1e-7, 123456789.12345679, 5e-324, 1e308, 0.1])
+                if pat == 'sparse':
+                    return rng.choice([0.0, 0.0, -0.0, 1.0, 2.2250738585072014e-308, -1e308, 0.30000000000000004])
+                return rand_float(rng, None, special=False)
             if two:
-                return numpy.array([[rand_float(rng, None, special=False) for _ in range(n2)] for _ in range(n1)], dtype='float64')
-            return numpy.array([rand_float(rng, None, special=False) for _ in range(n1)], dtype='float64')
+                return numpy.array([[coef() for _ in range(n2)] for _ in range(n1)], dtype='float64')
+            return numpy.array([coef() for _ in range(n1)], dtype='float64')
         if attr in ('ECF',):
             return [rng.uniform(-7e6, 7e6) for _ in range(3)]
         if attr in ('LLH',):
@@ -637,7 +650,7 @@ class ModelCodec:
                     sz = '-:-' if r['size'] is None else f'0:{self.tags.get(r["size"])}'
                     ip = '-' if r['idxpos'] is None else str(r['idxpos'])
                     lb = '-' if not r['labels'] else '.'.join(str(texts.get(l)) for l in r['labels'])
-                    kk = f'y{seen[r["cid"]]}:{self.qn(r["ctag"])}:{self.qn(r["pctag"])}:{sz}:0:{self.tags.get(r["psize"])}:{r["minlen"]}:{r["maxlen"]}:{ip}:{lb}'
+                    kk = f'y{seen[r["cid"]]}:{self.qn(r["ctag"])}:{self.qn(r["pctag"])}:{sz}:0:{self.tags.get(r["psize"])}:{r["minlen"]}:{r["maxlen"]}:{ip}:{lb}:{r["idxlimit"]}'
                 elif k == 'floatarr':
                     kk = (f'f{self.tx.PRIM_ID[r["prim"]]}:{self.qn(r["ctag"])}:{self.qn(r["pctag"])}:0:{self.tags.get(r["size"])}:0:{self.tags.get(r["psize"])}'
                           f':0:{self.tags.get(r["idxattr"])}:{r["base"]}')
@@ -923,6 +936,119 @@ def decode_size_texts(tokens, texts):
     return ','.join(out)
 
 
+
+# ------------------------------------------------------------------------------------------------ documents sarpy did not write
+
+FOREIGN_OPS = ('perm-coef', 'sparse-coef', 'shuffle-index', 'dup-param', 'perm-params', 'change-derived', 'drop-derived', 'bad-size',
+               'too-long', 'too-short')
+
+
+def _local(t):
+    return t.rsplit('}', 1)[-1]
+
+
+def foreign_variant(b, op, rng, derived_tags=(), top_arrays=()):
+    """one edit of a document sarpy wrote, of the kind the hand-written readers must cope with; returns new bytes or None when
+    the document has no site for the edit.  Edits that can make a reader refuse the document are applied to direct children of
+    the root only (a failure inside a nested structure is swallowed by SerializableDescriptor and turns into an absent field)."""
+    root = ElementTree.fromstring(b)
+    nodes = list(root.iter())
+    done = False
+    if op == 'perm-coef':
+        sites = [n for n in nodes if sum(1 for ch in n if _local(ch.tag) == 'Coef') >= 2]
+        if sites:
+            n = rng.choice(sites)
+            idx = [i for i, ch in enumerate(n) if _local(ch.tag) == 'Coef']
+            chs = [n[i] for i in idx]
+            for _ in range(6):
+                perm = chs[:]
+                rng.shuffle(perm)
+                if any(x is not y for x, y in zip(perm, chs)):
+                    break
+            for i, ch in zip(idx, perm):
+                n[i] = ch
+            done = True
+    elif op == 'sparse-coef':
+        for n in nodes:
+            for ch in list(n):
+                if _local(ch.tag) == 'Coef' and ch.text is not None:
+                    try:
+                        v = float(ch.text)
+                    except ValueError:
+                        continue
+                    if v == 0.0 and math.copysign(1.0, v) > 0 and rng.random() < 0.8:
+                        n.remove(ch)
+                        done = True
+    elif op == 'shuffle-index':
+        for key in ('index', 'k'):
+            sites = [n for n in nodes if len(n) >= 2 and all(key in ch.attrib for ch in n)]
+            if sites:
+                n = rng.choice(sites)
+                vals = [ch.attrib[key] for ch in n]
+                vals = vals[1:] + vals[:1] if rng.random() < 0.5 else vals[::-1]
+                for ch, v in zip(n, vals):
+                    ch.attrib[key] = v
+                done = True
+                break
+    elif op in ('dup-param', 'perm-params'):
+        sites = [n for n in nodes if sum(1 for ch in n if 'name' in ch.attrib and len(ch) == 0) >= (1 if op == 'dup-param' else 2)]
+        if sites:
+            n = rng.choice(sites)
+            ps = [i for i, ch in enumerate(n) if 'name' in ch.attrib and len(ch) == 0]
+            if op == 'dup-param':
+                first = n[ps[0]]
+                dup = ElementTree.Element(first.tag, dict(first.attrib))
+                dup.text = 'second value of ' + first.attrib['name'][:20]
+                n.insert(ps[-1] + 1, dup)
+            else:
+                chs = [n[i] for i in ps][::-1]
+                for i, ch in zip(ps, chs):
+                    n[i] = ch
+            done = True
+    elif op in ('change-derived', 'drop-derived'):
+        sites = [(n, ch) for n in nodes for ch in n if len(ch) == 0 and not ch.attrib and _local(ch.tag) in derived_tags and ch.text]
+        if sites:
+            n, ch = rng.choice(sites)
+            if op == 'drop-derived':
+                n.remove(ch)
+            else:
+                ch.text = str(int(ch.text) + 7) if ch.text.isdigit() else ch.text + 'X'
+            done = True
+    elif op == 'bad-size':
+        sites = [ch for ch in root if _local(ch.tag) in top_arrays and (ch.attrib.get('size', '').isdigit() or ch.attrib.get('numLayers', '').isdigit())]
+        if sites:
+            ch = rng.choice(sites)
+            key = 'size' if 'size' in ch.attrib else 'numLayers'
+            ch.attrib[key] = str(int(ch.attrib[key]) + rng.choice([1, 2]))
+            done = True
+    elif op in ('too-long', 'too-short'):
+        sites = [ch for ch in root if _local(ch.tag) in top_arrays and len(ch) >= 1 and len({c2.tag for c2 in ch}) == 1
+                 and (ch.attrib.get('size', '').isdigit() or not ch.attrib) and len(ch[0]) > 0]
+        if sites:
+            ch = rng.choice(sites)
+            if op == 'too-long':
+                for _ in range(rng.choice([1, 2])):
+                    ch.append(_copy.deepcopy(ch[-1]))
+            else:
+                for _ in range(min(len(ch), rng.choice([1, 2]))):
+                    ch.remove(ch[-1])
+            if 'size' in ch.attrib:
+                ch.attrib['size'] = str(len(ch))
+            done = True
+    if not done:
+        return None
+    return root
+
+
+def foreign_bytes(root, nsdecl):
+    """serialise with the prefixes sarpy expects (default namespace unprefixed, sicommon/sfa/ism kept)"""
+    for pfx, uri in nsdecl.items():
+        try:
+            ElementTree.register_namespace(pfx, uri)
+        except ValueError:
+            return None
+    return ElementTree.tostring(root, encoding='utf-8')
+
 # ------------------------------------------------------------------------------------------------ classification of known defects
 
 FAMILY = {'xml': 'xml', 'xml-stability': 'xml', 'xml-exception': 'xml', 'dict': 'dict', 'dict-stability': 'dict', 'dict-exception': 'dict',
@@ -1200,6 +1326,7 @@ def run(tier):
     mode_hist = {}
     drv = Driver()
     jobs = []
+    foreign_cands, fjobs = [], []
     t_budget = time.time()
     cases = plan(info, tier, rng)
     if tier == 'quick':
@@ -1316,10 +1443,69 @@ def run(tier):
                 dict_tokens(x, gcid, mc, texts, de)
                 i3 = drv.ask(f'xml dict {tabs} 0 {",".join(dt)}') if uname == list(xmls)[0] else None
                 jobs.append((q, mode, seed, uname, texts, ','.join(rtoks), ','.join(toks), ','.join(de), i1, i2, i3))
+                if uname == list(xmls)[0] and uname != 'no-namespace' and all(info['tables'][info['order'][i_]] is not None for i_ in order):
+                    # only classes whose whole closure is inside the model: inside a black box the model keeps the document as it is
+                    foreign_cands.append((q, mode, seed, c, is_root, urn, uname, b, dict(nsmap)))
             except Infra:
                 raise
             except Exception as e:
                 disagreements.append({'case': [q, str(mode), seed], 'msg': f'converting the instance to the model value raised {type(e).__name__}: {e}'})
+    # ---- documents sarpy did not write: the same reader on both sides (implementation: from_node; model: parseN)
+    derived_tags = {r['tag'][1] for rows in info['tables'].values() if isinstance(rows, list) for r in rows if r['kind'] in ('count', 'const', 'which') and not r.get('as_attr')}
+    n_foreign = 500 if tier == 'quick' else 8000
+    frng = random.Random(rng.getrandbits(48))
+    frng.shuffle(foreign_cands)
+    fstats = {op: 0 for op in FOREIGN_OPS}
+    fstats.update(refused_by_implementation=0, documents=0)
+    per_op_cap = max(1, n_foreign // len(FOREIGN_OPS)) * 2
+    for k, (q, mode, seed, c, is_root, urn, uname, b, nsmap) in enumerate(foreign_cands):
+        if fstats['documents'] >= n_foreign:
+            break
+        ops = list(FOREIGN_OPS)
+        frng.shuffle(ops)
+        ops.sort(key=lambda o: fstats[o])          # least used operator first
+        for op in ops:
+            if fstats[op] >= per_op_cap:
+                continue
+            try:
+                rws = info['tables'][(q, None)]
+                top = {r['tag'][1] for r in rws if r['kind'] in ('array', 'floatarr')} if isinstance(rws, list) else set()
+                root2 = foreign_variant(b, op, frng, derived_tags, top)
+            except Exception as e:
+                raise Infra(f'foreign_variant {op} on {q}: {type(e).__name__}: {e}')
+            if root2 is None:
+                continue
+            nsdecl = {('' if pfx is None else pfx): uri for uri, pfx in nsmap.items()}
+            b2 = foreign_bytes(root2, nsdecl)
+            if b2 is None:
+                continue
+            try:
+                y = from_xml(c, b2, is_root)
+                refused = None
+            except Exception as e:
+                y, refused = None, type(e).__name__
+            try:
+                gcid = mc.cid(c, None)
+                order, seen = mc.mini(gcid)
+                texts = Texts()
+                tabs = mc.encode_tabs(order, seen, texts)
+                rtoks = []
+                et_to_tokens(ElementTree.fromstring(b2), nsmap, mc, texts, rtoks)
+                if refused is None:
+                    vt = []
+                    value_tokens(y, gcid, mc, seen, texts, vt, False)
+                    expect = ','.join(vt)
+                else:
+                    expect = 'none'
+                fjobs.append((q, str(mode), seed, op, refused, expect, texts, drv.ask(f'xml par {tabs} 0 {",".join(rtoks)}'), b2[:1500]))
+                fstats[op] += 1
+                fstats['documents'] += 1
+                fstats['refused_by_implementation'] += refused is not None
+            except Infra:
+                raise
+            except Exception as e:
+                disagreements.append({'case': [q, str(mode), seed, 'foreign:' + op], 'msg': f'converting the re-parsed instance raised {type(e).__name__}: {e}'})
+            break
     # ---- ask the model
     try:
         ans = drv.run()
@@ -1356,11 +1542,25 @@ def run(tier):
                 elif d[3] != dexp:
                     disagreements.append({'case': case, 'msg': 'model dict form differs from to_dict()',
                                           'model': explain(d[3], dexp, texts, mc)[0], 'python': explain(d[3], dexp, texts, mc)[1]})
+    if ans is not None:
+        def n0(t):
+            return ','.join('A' if x == 'N0' else x for x in t.split(','))
+        for q, mode, seed, op, refused, expect, texts, i, doc in fjobs:
+            stats['model_foreign_documents_compared'] = stats.get('model_foreign_documents_compared', 0) + 1
+            if n0(ans[i]) != n0(expect):
+                ex = explain(n0(ans[i]), n0(expect), texts, mc)
+                disagreements.append({'case': [q, mode, seed, 'foreign:' + op],
+                                      'msg': 'reading a document sarpy did not write (' + op + '): model '
+                                             + ('refuses' if ans[i] == 'none' else 'accepts') + ', implementation '
+                                             + (f'refuses ({refused})' if refused else 'accepts'),
+                                      'model': ex[0], 'python': ex[1], 'document': doc.decode('utf-8', 'replace')})
+    stats['foreign_documents'] = fstats
     stats['oracle_failures'] = len(fails)
     stats['empty_collection_equals_absent'] = COUNTERS['empty_collection_equals_absent']
     never = sorted(set(classes) - classes_seen)
     chk.coverage.update({
-        'evaluations': stats['instances'] + stats['model_nodes_compared'] + stats['model_parses_compared'] + stats['model_dicts_compared'],
+        'evaluations': stats['instances'] + stats['model_nodes_compared'] + stats['model_parses_compared'] + stats['model_dicts_compared']
+        + stats.get('model_foreign_documents_compared', 0),
         'distinct_nontrivial': len(patterns),
         'rule': 'instances generated from the descriptors of every Serializable class of the element packages: all fields absent, all present, each field '
                 'alone, fields left out, random subsets; collections of 0-3 entries; floats from a pool of extremes (-0.0, denormals, 1e308, max, 2^53+1, '
